@@ -22,4 +22,18 @@ theorem C11_builtin_preserve_mt (cfg : Cfg4) (req : ReqView4) (pre r : Resp4) (s
 theorem C12_builtin_preserve_mt (cfg : Cfg6) (req : ReqView6) (pre r : Resp6) (stop : Bool)
     (h : plugHandle6 cfg req pre = (some r, stop)) : r.mt = pre.mt := preserve_mt6 cfg req pre r stop h
 
+/-- Every built-in DHCPv4 plugin leaves the relay agent information (82), client identifier (61)
+and message type (53) options of the response alone: each only updates the codes it owns. -/
+theorem C11_builtin_preserve_echo_opts (cfg : Cfg4) (req : ReqView4) (pre r : Resp4) (stop : Bool)
+    (h : plugHandle4 cfg req pre = (some r, stop)) :
+    lookup 82 r.opts = lookup 82 pre.opts ∧ lookup 61 r.opts = lookup 61 pre.opts ∧
+    lookup 53 r.opts = lookup 53 pre.opts := preserve_echo_opts4 cfg req pre r stop h
+
+/-- Every built-in DHCPv6 plugin leaves the Client-ID (1) and Rapid Commit (14) options of the
+response untouched. -/
+theorem C12_builtin_preserve_cid (cfg : Cfg6) (req : ReqView6) (pre r : Resp6) (stop : Bool)
+    (h : plugHandle6 cfg req pre = (some r, stop)) :
+    r.opts.filter (fun o => o.1 == 1) = pre.opts.filter (fun o => o.1 == 1) ∧
+    r.opts.filter (fun o => o.1 == 14) = pre.opts.filter (fun o => o.1 == 14) := preserve_cid6 cfg req pre r stop h
+
 end CoreDhcp
